@@ -331,12 +331,27 @@ class Union:
         self.__args__ = self.types = types
 
     def codegen(self):
-        from .dependent import combine, generate_checking_code
+        from .dependent import (
+            CodeGen,
+            DependentType,
+            combine,
+            generate_checking_code,
+        )
+
+        def member_code(t):
+            cg = generate_checking_code(t)
+            if isinstance(t, DependentType):
+                # The argument only matched the union of the bounds, so each
+                # member must check its own bound before its condition
+                return CodeGen(
+                    "(isinstance({arg}, {member_bound}) and " + cg.template + ")",
+                    cg.substitutions,
+                    member_bound=t.bound,
+                )
+            return cg
 
         template = "(" + " or ".join("{}" for t in self.types) + ")"
-        return combine(
-            template, [generate_checking_code(t) for t in self.types]
-        )
+        return combine(template, [member_code(t) for t in self.types])
 
     def __type_order__(self, other):
         if other is Union:
